@@ -133,7 +133,7 @@ def check_C11(ctx):
 # ------------------------------------------------------------------- C12
 def check_C12(ctx):
     ctx.model_check("MC_Store.tla", q(ctx, "MC_Store_map.cfg", "MC_Store_map_thorough.cfg"))
-    seq_traces(ctx, "colls", q(ctx, 8, 16), q(ctx, 12, 60), q(ctx, 150, 400), {"C12"})
+    seq_traces(ctx, "colls", q(ctx, 8, 16), q(ctx, 12, 60), q(ctx, 150, 400), {"C12", "C02"})
     return ctx.finish("model_checking",
                       "exhaustive: MC_Store with SetCollection/RemoveCollection; conformance: random histories interleaving SetCollection "
                       "(new and existing names), RemoveCollection, GetCollectionNames and item mutations with flushes, reopens and "
@@ -232,6 +232,7 @@ def reclaim_cfg(keys, prios, maxmut, nsnap, nreader, depth, quiescent, maxver=10
   FixClose = 2
   MaxVer = %d
   AllowFail = FALSE
+  FixFail = TRUE
   QuiescentClose = %s
   Depth = %d
 SPECIFICATION GSpec
@@ -315,3 +316,69 @@ def check_C15(ctx):
                       ASSUME_COMMON + ["an ItemAlloc-ed item is born with one reference owned by gkvlite; Get()/Exist() are not driven here "
                                        "because they keep the looked-up item's reference without handing the item to the caller",
                                        "closing a store while a visit on it is still in flight is outside the contract (use after Close)"])
+
+
+# ------------------------------------------------------------------- C03
+def crash_traces(ctx, chunks, n, steps, accept, alltorn=0, cont=25, seed_off=0):
+    def one(i):
+        seed = ctx.seed * 1000 + seed_off + i
+        out = os.path.join(ctx.work, "crash-%d-%d.ndjson" % (seed_off, i))
+        args = ["crash", "-seed", seed, "-n", n, "-steps", steps, "-out", out, "-alltorn", alltorn, "-prop", ctx.prop, "-cont", cont]
+        st, poisoned = ctx.drive(args, timeout=1500)
+        ctx.validate(out, accept, cmdline=" ".join(map(str, [ctx.bin] + args)), timeout=1500)
+        if not any(out in json.dumps(v) for v in ctx.violations):
+            os.remove(out)
+        return st
+    with ThreadPoolExecutor(max_workers=8) as ex:
+        sts = list(ex.map(one, range(chunks)))
+    for st in sts:
+        for k, v in (st.get("extra") or {}).items():
+            ctx.coverage_extra[k] = ctx.coverage_extra.get(k, 0) + v
+    return sts
+
+
+def check_C03(ctx):
+    ctx.model_check("RootScan.tla", q(ctx, "MC_RootScan.cfg", "MC_RootScan_thorough.cfg"))
+    crash_traces(ctx, q(ctx, 6, 16), q(ctx, 2, 8), q(ctx, 60, 100), {"C03"}, alltorn=q(ctx, 0, 128))
+    return ctx.finish("model_checking",
+                      "exhaustive: RootScan.tla (symbolic transcription of the backward root search) over every junk tail of <= 3 (quick) / 4 "
+                      "(thorough) symbols from an adversarial alphabet (markers, fragments, wrong offsets/lengths) behind 0-2 real roots: the "
+                      "scan terminates and returns the last well-formed root; conformance (fault_enumeration on the real write log): for "
+                      "random flush-heavy histories EVERY prefix of the file's write log x truncations of the write in flight (0,1,half,"
+                      "len-1, field edges; thorough: every length of writes <= 128 bytes) plus adversarial junk tails is opened with the "
+                      "real library and compared by TLC with the durable stack of that log prefix; a sample of recovered stores continues "
+                      "with mutations, flushes and reopens; distinct non-trivial = crash images",
+                      ASSUME_COMMON + ["a write is the unit of atomic ordering: bytes of one WriteAt land as a prefix (torn) or not at all",
+                                       "junk that happens to be a complete self-consistent root record is excluded (C03 text)"])
+
+
+# ------------------------------------------------------------------- C07
+def check_C07(ctx):
+    ctx.model_check("MC_Store.tla", q(ctx, "MC_Store_map.cfg", "MC_Store_map_thorough.cfg"))
+    chunks = q(ctx, 8, 16)
+    def one(i):
+        seed = ctx.seed * 1000 + i
+        out = os.path.join(ctx.work, "fault-%d.ndjson" % i)
+        args = ["fault", "-seed", seed, "-n", q(ctx, 1, 4), "-steps", q(ctx, 30, 60), "-out", out,
+                "-alltorn", q(ctx, 0, 128), "-maxvar", q(ctx, 250, 1500), "-prop", ctx.prop]
+        st, poisoned = ctx.drive(args, timeout=2400)
+        # every history here contains one injected fault: any later deviation
+        # ("behaves as if the failed call had never been made") counts for C07
+        ctx.validate(out, {"C%02d" % i for i in range(1, 20)}, cmdline=" ".join(map(str, [ctx.bin] + args)), timeout=2400)
+        if not any(out in json.dumps(v) for v in ctx.violations):
+            os.remove(out)
+        return st
+    with ThreadPoolExecutor(max_workers=8) as ex:
+        sts = list(ex.map(one, range(chunks)))
+    for st in sts:
+        for k, v in (st.get("extra") or {}).items():
+            ctx.coverage_extra[k] = ctx.coverage_extra.get(k, 0) + v
+    return ctx.finish("model_checking",
+                      "single-fault enumeration on the real file log: for each base history and each of 22 target operations (lookups, "
+                      "visits, mutations, Flush, Collection.Write, CopyTo, FlushRevert, re-open) one ReadAt/WriteAt/Stat/Truncate call "
+                      "(k = 1..all, subsampled above the cap) fails outright or after a torn prefix; TLC checks with the Store "
+                      "specification that the call reported an error, that every handle shows the same contents right after it, that the "
+                      "remaining operations (retried Flush included) behave as if the failed call had never been made, also after "
+                      "unrelated allocation and a re-open; non-trivial = variant whose fault fired",
+                      ASSUME_COMMON + ["a write that landed completely but reported an error is ambiguous and not driven",
+                                       "Exist() has no error result and is not driven under faults"])
